@@ -94,27 +94,61 @@ fn rule_ok_tol(allowed: u16, v: f32, r: u8) -> bool {
 // C07  never a forbidden note
 // =====================================================================
 
-// @harness prop=C07,C17 tier=quick timeout=900 unwindset=find_nearest_note:4,13
-// @about any Inv_q state (all 4095 scales, any cached note 0..=131 with its stairstep, or the power-on record), any f32 input incl. NaN, +-inf, subnormals: the pitch class of the returned note is allowed at the time of the call; no panic / overflow (Kani built-in checks) in convert and find_nearest_note. Loops unwound: octave loop 3(+1), note loop 12(+1), unwinding assertions on
+/// build a note slice of symbolic length and content
+fn any_notes() -> ([Note; 12], usize) {
+    let raw: [u8; 12] = kani::any();
+    let len: usize = kani::any();
+    kani::assume(len <= 12);
+    ([
+        Note::new(raw[0]), Note::new(raw[1]), Note::new(raw[2]), Note::new(raw[3]),
+        Note::new(raw[4]), Note::new(raw[5]), Note::new(raw[6]), Note::new(raw[7]),
+        Note::new(raw[8]), Note::new(raw[9]), Note::new(raw[10]), Note::new(raw[11]),
+    ], len)
+}
+
+// @harness prop=C07 tier=quick timeout=1800 unwindset=find_nearest_note:4,13
+// @about every state a history can reach, built through the public API: any initial scale (all 4095), a first conversion of any f32 v1 (this is what the cache can hold: every later conversion leaves a record of the same form), then an ARBITRARY scale edit -- forbid(any slice of 0..=12 notes) followed by allow(any slice of 0..=12 notes), either may be empty -- then a conversion of any f32 v2 (incl. v2 == v1, NaN, +-inf): the pitch class reported by BOTH conversions is allowed in the scale in force at that call (read back with is_allowed); in every octave
 #[kani::proof]
 #[kani::unwind(14)]
 fn c07_convert_never_forbidden() {
+    let mut q = any_quantizer(false);
+    let v1: f32 = kani::any();
+    let c1 = q.convert(v1);
+    vassert!(q.is_allowed(Note::new(c1.note_num % 12)), "C07/convert/pitch-class-allowed-now");
+    let (f_notes, f_len) = any_notes();
+    let (a_notes, a_len) = any_notes();
+    if f_len >= 1 {
+        q.forbid(&f_notes[..f_len]);
+    }
+    q.allow(&a_notes[..a_len]);
+    let v2: f32 = kani::any();
+    let c2 = q.convert(v2);
+    vassert!(q.is_allowed(Note::new(c2.note_num % 12)), "C07/convert/pitch-class-allowed-after-any-scale-edit");
+    vassert!(q.allowed != 0 && q.allowed <= 0x0fff, "C07/scale/non-empty-12-bits");
+    vcover!(c1.note_num >= 12 && v1 == v2 && c2.note_num != c1.note_num, "witness: same input above octave 0, note had to change");
+    vcover!(f_len == 12 && c1.note_num >= 24, "witness: forbid tried to empty the scale, octave >= 2");
+    vcover!(v2.is_nan(), "witness: NaN input");
+    vcover!(c2.note_num == 131, "witness: highest note");
+}
+
+// @harness prop=C17,C19 tier=quick timeout=900 unwindset=find_nearest_note:4,13
+// @about no panic from any stored state: any Inv_q state (all 4095 scales, any cached note 0..=131 with its stairstep, or the power-on record), any f32 input incl. NaN, +-inf, subnormals: convert() and find_nearest_note() raise no panic / overflow / out-of-range cast (Kani built-in checks); the scale is not edited by convert. Loops unwound: octave loop 3(+1), note loop 12(+1), unwinding assertions on
+#[kani::proof]
+#[kani::unwind(14)]
+fn c17_convert_no_panic_from_any_state() {
     let hist: bool = kani::any();
     let mut q = any_quantizer(hist);
     let allowed = q.allowed;
-    let cached = q.cached_conversion.note_num;
     let v: f32 = kani::any();
     let c = q.convert(v);
-    vassert!(pitch_class_allowed(allowed, c.note_num), "C07/convert/pitch-class-allowed-now");
-    vassert!(q.allowed == allowed, "C07/convert/does-not-edit-the-scale");
-    vcover!(hist && c.note_num == cached && cached >= 12, "witness: hysteresis kept a note above octave 0");
-    vcover!(hist && cached >= 12 && !pitch_class_allowed(allowed, cached), "witness: cached note above octave 0 no longer allowed");
+    vassert!(q.allowed == allowed, "C17/convert/does-not-edit-the-scale");
+    vassert!(c.note_num <= 131, "C17/convert/note-number-bounded");
     vcover!(v.is_nan(), "witness: NaN input");
     vcover!(c.note_num == 131, "witness: highest note");
 }
 
-// @harness prop=C07,C20 tier=quick timeout=600
-// @about any non-empty scale, any argument slice of length 0..=12 for allow / 1..=12 for forbid with any u8 note values (values above 11 act as 11): the scale stays within 12 bits and non-empty; forbid clears exactly the named classes unless that would empty the scale, in which case exactly the last note of the argument stays allowed; allow sets exactly the named classes; is_allowed reads the bit
+// @harness prop=C07,C20,C17 tier=quick timeout=600
+// @about any non-empty scale, any argument slice of length 0..=12 (incl. the empty slice) for allow and forbid with any u8 note values (values above 11 act as 11): the scale stays within 12 bits and non-empty; forbid clears exactly the named classes unless that would empty the scale, in which case exactly the last note of the argument stays allowed; allow sets exactly the named classes; is_allowed reads the bit
 #[kani::proof]
 #[kani::unwind(14)]
 fn c07_allow_forbid_keep_scale_nonempty() {
@@ -122,7 +156,9 @@ fn c07_allow_forbid_keep_scale_nonempty() {
     let before = q.allowed;
     let raw: [u8; 12] = kani::any();
     let len: usize = kani::any();
-    kani::assume(len >= 1 && len <= 12);
+    let do_forbid: bool = kani::any();
+    // forbid(&[]) on a non-empty scale must not panic either; only a call that empties the scale needs a last note
+    kani::assume(len <= 12 && (len >= 1 || before != 0));
     let notes: [Note; 12] = [
         Note::new(raw[0]), Note::new(raw[1]), Note::new(raw[2]), Note::new(raw[3]),
         Note::new(raw[4]), Note::new(raw[5]), Note::new(raw[6]), Note::new(raw[7]),
@@ -136,15 +172,14 @@ fn c07_allow_forbid_keep_scale_nonempty() {
         }
         i += 1;
     }
-    let do_forbid: bool = kani::any();
     if do_forbid {
         q.forbid(&notes[..len]);
         let want = before & !mask;
         if want != 0 {
             vassert!(q.allowed == want, "C07/forbid/clears-exactly-the-named-notes");
         } else {
-            let last = if raw[len - 1] <= 11 { raw[len - 1] } else { 11 };
-            vassert!(q.allowed == 1 << last, "C07/forbid/emptying-leaves-last-argument-allowed");
+            let last = if len >= 1 && raw[len - 1] <= 11 { raw[len - 1] } else { 11 };
+            vassert!(len >= 1 && q.allowed == 1 << last, "C07/forbid/emptying-leaves-last-argument-allowed");
         }
     } else {
         q.allow(&notes[..len]);
